@@ -42,6 +42,7 @@ type Run struct {
 	Faults     map[string]int
 	Probes     map[string]int
 	Skipped    map[string]int
+	watchLocks bool
 	Sample     map[string]any
 	NonTrivial bool
 	Finger     string // final state fingerprint, set by the check
@@ -82,8 +83,8 @@ func (r *Run) Logf(format string, a ...any) {
 	}
 }
 
-func (r *Run) Events() int    { return r.events }
-func (r *Run) Digest() string { return hex.EncodeToString(r.hasher[:8]) }
+func (r *Run) Events() int     { return r.events }
+func (r *Run) Digest() string  { return hex.EncodeToString(r.hasher[:8]) }
 func (r *Run) Trace() []string { return r.trace }
 
 func (r *Run) Fault(kind string) { r.Faults[kind]++ }
@@ -206,6 +207,10 @@ func Exec(tb *testing.T, prop string, tp *tape.Tape, tier string, keepAll bool, 
 						r.Skipped["replay-candidate-overran-tape"]++
 						return
 					}
+					if ll, ok := p.(LockNeverReleased); ok {
+						r.Report("lock-never-released", ll.Site, "a lock of the node taken at %s was never released: the next caller would wait for ever\n%s", ll.Site, trimStack(string(debug.Stack())))
+						return
+					}
 					st := string(debug.Stack())
 					r.Report("panic", panicSite(st), "%v\n%s", p, trimStack(st))
 				}
@@ -214,6 +219,9 @@ func Exec(tb *testing.T, prop string, tp *tape.Tape, tier string, keepAll bool, 
 			r.start = time.Now()
 			fn(r)
 			r.SimSeconds = time.Since(r.start).Seconds()
+			if site := r.leakedLock(); site != "" && len(r.Violations) == 0 {
+				r.Report("lock-never-released", site, "a lock of the node taken at %s was never released (the panic of the lock watch was swallowed on the way)", site)
+			}
 		})
 	}()
 	return r
